@@ -75,6 +75,11 @@ structure OpFacts where
   shiftBoolGuard : Bool
   /-- typecheck.go `shift`, arm `isInt(t1)`: a negative constant count of a signed type is an error (5556d48) -/
   shiftNegChecked : Bool
+  /-- typecheck.go `convertUntyped`, both untyped: nil converts to nil only, without asking the nil reflect.Type for its
+      kind (2992617) -/
+  convNilUntypedGuard : Bool
+  /-- typecheck.go `comparison`: `==` / `!=` are rejected when both operands are nil (2992617) -/
+  cmpNilNilRejected : Bool
   deriving DecidableEq, Repr
 
 def lookup {α β : Type} [DecidableEq α] (k : α) : List (α × β) → Option β
@@ -223,6 +228,12 @@ structure TcFacts where
   /-- typecheck.go callValue: the operand of a conversion is a single-value context
       (`anc.child[0] != c && !anc.child[0].isType(check.scope)`, 29b7aa6) -/
   callValueConvChecked : Bool
+  /-- type.go `typeKind` (2992617): isChan / isFunc / isMap / isPtr and the operand test of cfg.go indexExpr answer for the
+      type of nil (reflect.Invalid) instead of calling `Kind()` on the nil reflect.Type -/
+  typeKindNilSafe : Bool
+  /-- cfg.go binaryExpr / unaryExpr post-order: `check.operationResult` at the four no-copy shortcut sites (assignment and
+      return) before the node takes the destination type (aa2ac2f) -/
+  opResultChecked : Bool
   deriving DecidableEq, Repr
 
 def CmpTok.eval : CmpTok → Nat → Nat → Bool
@@ -435,6 +446,8 @@ def defaultTypeY (t : Ty) : Ty :=
 def convertUntypedY (F : OpFacts) (n : Opnd) (typ : Ty) : Res Opnd :=
   if !n.ty.isUntyped then .ok n else
   if typ.isUntyped then
+    -- 2992617: the type of nil has no reflect type; nil converts to nil only
+    if F.convNilUntypedGuard && (n.ty.isNil || typ.isNil) then (if n.ty.isNil != typ.isNil then .err else .ok n) else
     -- both untyped: compare reflect kinds
     match n.ty.kind?, typ.kind? with
     | some nk, some tk =>
@@ -519,7 +532,8 @@ def comparisonY (F : OpFacts) (op : CmpOp) (x y : Opnd) : Res Opnd := do
     | .eq | .ne => do
       let c0 ← (if t0.isNil then pure true else match t0.rtype? with | some r => pure r.comparable | none => pure false)
       let c1 ← (if t1.isNil then pure true else match t1.rtype? with | some r => pure r.comparable | none => pure false)
-      if c0 && c1 then pure true
+      if F.cmpNilNilRejected && t0.isNil && t1.isNil then pure false     -- nil is compared to an operand whose type has nil (2992617)
+      else if c0 && c1 then pure true
       else if t0.isNil then hasNilT t1
       else if t1.isNil then hasNilT t0
       else pure false
@@ -649,7 +663,8 @@ def unY (T : TcFacts) (op : UnOp) (x : Opnd) : Res Opnd := do
   | some k => if unaryY T.ops op.op.action k then .ok ⟨x.ty, boolResultRv x x⟩ else .err
   | none => .err
 
-def recvY (_T : TcFacts) (x : Opnd) : Res Opnd := do
+def recvY (T : TcFacts) (x : Opnd) : Res Opnd := do
+  if T.typeKindNilSafe && x.ty.isNil then .err              -- `isChan` through `typeKind` (2992617)
   let k ← kindOf x.ty
   if k != .chan then .err
   match x.ty with
@@ -742,7 +757,7 @@ def indexY (T : TcFacts) (a i : Opnd) : Res Opnd := do
   | .struct _ _ _ => bad
   | .iface _ _ => bad
   | .untyped _ => .abstain
-  | .nil => .crash                                 -- `t.TypeOf()` is the nil reflect.Type: `rt.Kind()` panics
+  | .nil => if T.typeKindNilSafe then .err else .crash   -- `t.TypeOf()` is the nil reflect.Type: `rt.Kind()` panicked until 2992617 (`typeKind`)
 
 /-- `typecheck.arguments` / `argument` for non-variadic interpreted functions, arguments not spread -/
 def callArgsY (T : TcFacts) (params : List STy) : Nat → List Opnd → Res Unit
@@ -767,6 +782,19 @@ def callValueY (T : TcFacts) (conv : Bool) (rets : List STy) : Res Opnd :=
   | [] => if !T.callValueChecked then .abstain else if conv && !T.callValueConvChecked then .crash else .err
   | _ => if conv && T.callValueChecked && T.callValueConvChecked then .err else .abstain   -- 29b7aa6: a conversion takes a single value
 
+/-- `typecheck.operationResult` (aa2ac2f): the type the operation has by its operands — for the fragment the type of the
+    result operand; `bool` for a comparison (`isComparison`: the values marked `RVal.ubool`), accepted by any boolean
+    destination — must be assignable to the destination, unless it is untyped or the destination is an interface -/
+def opResultY (T : TcFacts) (x : Opnd) (dst : Ty) : Res Unit :=
+  if !T.opResultChecked || dst.isIface then .ok ()
+  else if x.rv == .ubool && isBooleanT T.ops dst then .ok ()
+  else
+    let t : Ty := if x.rv == .ubool then .s (.basic .bool) else x.ty
+    if t.isUntyped then .ok ()
+    else match assignableToY T.ops t dst .none with
+      | .ok b => okIf b
+      | .err => .err | .crash => .crash | .abstain => .abstain
+
 /-- `assignExpr` for `var v T = e` (`decl`) and `v = e`. For `v = e` whose source is a non-constant
     unary / binary operator node, the post-order shortcut of cfg.go ("store the result directly at the
     destination") has replaced the node's type by the destination type, so the assignment check sees
@@ -775,7 +803,8 @@ def callValueY (T : TcFacts) (conv : Bool) (rets : List STy) : Res Opnd :=
     (Arithmetic nodes already carry the destination type by propagation, in both statements.) -/
 def assignY (T : TcFacts) (decl : Bool) (sh : Shape) (dst : Ty) (x : Opnd) : Res Ty :=
   let shortcut : Res Ty :=
-    if dst.isIface && !x.ty.isIface then do assignmentY T.ops x dst; .ok dst else .ok dst
+    if dst.isIface && !x.ty.isIface then do assignmentY T.ops x dst; .ok dst
+    else do opResultY T x dst; .ok dst            -- until aa2ac2f the node took the destination type unchecked
   match sh with
   | .plain | .arith .land | .arith .lor => do assignmentY T.ops x dst; .ok dst
   | .arith op =>
@@ -822,6 +851,7 @@ def incdecY (T : TcFacts) (dst : Ty) : Res Unit := do
   if unaryY T.ops .aInc k then .ok () else .err
 
 def sendY (T : TcFacts) (c v : Opnd) : Res Unit := do
+  if T.typeKindNilSafe && c.ty.isNil then .err              -- `isChan` through `typeKind` (2992617)
   let k ← kindOf c.ty
   if k != .chan then .err
   match c.ty with
@@ -872,7 +902,10 @@ def retValsY (T : TcFacts) : List STy → List (Shape × Opnd) → Res Unit
         | _ => true
       if T.retConstChecked && x.ty.isUntyped && isNumberT T.ops (.s r) && !repr then .err
       retValsY T rs rest
-    | _ => retValsY T rs rest                  -- unary / arithmetic node: its type was replaced by the result type (shortcut)
+    | _ => do
+      -- unary / arithmetic node: its type is replaced by the result type (shortcut), after `operationResult` since aa2ac2f
+      opResultY T x (.s r)
+      retValsY T rs rest
 
 def retY (T : TcFacts) (results : List STy) (vals : List (Shape × Opnd)) : Res Unit := do
   if T.retTooManyCmp.eval vals.length results.length then .err
